@@ -865,3 +865,42 @@ def rule_release_removes_key(ctx):
                          "(and dangles once the shared object is torn down by its last user)" % (f.name, p0))
     ctx.floor("RELKEY", 6, n, "(public routines that release their identifier)")
     return n
+
+
+def rule_borrowed_accrec_not_released(ctx):
+    """ACCRECOWN (C13, C16): an access record is owned by its access id.  A routine that only *looks the record up* from an id it was
+    given (`rec = HAatom_object(aid)`) has borrowed it: it may release the record (HIrelease_accrec_node) only if it also takes the
+    id out of the atom table (HAremove_atom(aid)), as the end-access routines do.  Releasing a borrowed record on an error path
+    leaves a registered id pointing at a record on the free list: the caller's Hendaccess releases it a second time and two later
+    access ids share one record."""
+    from .facts import kind, strip, base_var
+    prog = ctx.prog
+    n = 0
+    pop = 0
+    for f in prog.lib_funcs():
+        params = {p[0] for p in f.params}
+        borrowed = {}
+        for _b, _i, _s, x in f.nodes(True):
+            if x[0] == "asg" and x[1] == "=" and kind(strip(x[2])) == "var":
+                r = strip(x[3])
+                if kind(r) == "call" and r[1] == "HAatom_object" and r[3] and kind(strip(r[3][0])) == "var" and strip(r[3][0])[1] in params:
+                    borrowed[strip(x[2])[1]] = strip(r[3][0])[1]
+        if not borrowed:
+            continue
+        pop += 1
+        rel = [c for _b, _i, _s, c in f.calls() if c[1] == "HIrelease_accrec_node" and c[3] and base_var(c[3][0]) in borrowed]
+        if not rel:
+            continue
+        for c in rel:
+            n += 1
+            v = base_var(c[3][0])
+            key = "ACCRECOWN:%s:%s" % (f.name, v)
+            removed = any(k[1] == "HAremove_atom" and k[3] and base_var(k[3][0]) == borrowed[v] for _b, _i, _s, k in f.calls())
+            if removed:
+                ctx.holds("ACCRECOWN", key, f.where(c[5]), "the id `%s` is removed from the atom table by the same routine" % borrowed[v], nontrivial=True)
+            else:
+                ctx.violated("ACCRECOWN", key, f.where(c[5]), "%s releases the access record it looked up from its caller's id `%s` without removing that id: the id stays valid and its record is released "
+                             "a second time by the caller" % (f.name, borrowed[v]))
+    ctx.holds("ACCRECOWN", "ACCRECOWN:population", "-", "%d routines look a record up from a caller's id; %d of them release one" % (pop, n), nontrivial=False)
+    ctx.floor("ACCRECOWN", 30, pop, "(routines that look a record up from a caller's id)")
+    return n
